@@ -54,6 +54,7 @@ func (e *Engine) callValue(st *State, fr *Frame, c *ssa.CallCommon, fn Val, args
 		// dynamic call through a func value of unknown target: a callback
 		name := e.siteName(st, fr, "nil-call", pos, ins)
 		st.check("nil-call", name, not(eq(fn.S, "0")), pos)
+		e.iterDirectCall(st, fr, fn, args, pos, ins)
 		e.callbackEvent(st, fr, c, fn, args, pos, ins)
 		res := e.unknownCall(st, "callback:"+e.srcSnippet(fr.fn, pos), args, resT, false)
 		e.callbackResult(st, fr, c, res, args)
@@ -88,6 +89,9 @@ func (e *Engine) callFunction(st *State, fr *Frame, callee *ssa.Function, bindin
 		ct := e.contractFor(callee)
 		if ct != nil && !ct.Inline && ct.Iter != nil && e.modelIterate(st, fr, callee, ct, args, pos, ins) {
 			return
+		}
+		if ct != nil && ct.Iter != nil {
+			e.iterPassedOn(st, fr, callee, ct, args, pos, ins)
 		}
 		if ct != nil && !ct.Inline && !(len(st.frames) == 1 && false) {
 			res := e.callByContract(st, fr, callee, ct, args, bindings, resT, pos, ins)
@@ -900,4 +904,96 @@ func libReceiverKnown(callee *ssa.Function, ins ssa.Instruction) bool {
 		}
 	}
 	return false
+}
+
+// ---------------------------------------------------------------------------------------
+// "iterates f(...)" promises, callee side. A function whose contract says that it calls its parameter f only on arguments
+// satisfying the iterates-requires clauses must keep that promise: (1) at every direct call of f in its body the clauses are
+// obligations; (2) where it hands f on to a callee that makes an iterates promise about the same callback, the callee's
+// promise (with the actual arguments) must imply its own, for every callback argument. Callers rely on the promise
+// (modelIterate assumes it); without these two checks it was never verified (found by seeded change C18-4).
+
+// iteratedParam: the value of the parameter that the contract of fr.fn iterates, if any.
+func (e *Engine) iteratedParam(fr *Frame) (*Contract, Val, bool) {
+	ct := e.contractFor(fr.fn)
+	if ct == nil || ct.Iter == nil {
+		return nil, Val{}, false
+	}
+	for _, p := range fr.fn.Params {
+		if p.Name() == ct.Iter.Param {
+			if v, ok := fr.regs[p]; ok {
+				return ct, v, true
+			}
+		}
+	}
+	return nil, Val{}, false
+}
+
+func (e *Engine) iterDirectCall(st *State, fr *Frame, fn Val, args []Val, pos token.Pos, ins ssa.Instruction) {
+	ct, pv, ok := e.iteratedParam(fr)
+	if !ok || pv.S != fn.S {
+		return
+	}
+	env := &Env{eng: e, st: st, pkg: e.pkgOf(fr.fn), vars: map[string]Val{}, where: "iterates-requires of " + funcDisplayName(fr.fn), oldSnap: st.unitOld, hasOld: true}
+	e.localsEnv(st, fr, env)
+	for i, f := range ct.Iter.Formals {
+		if i < len(args) {
+			env.vars[f] = args[i]
+		}
+	}
+	for _, rq := range env.expand(ct.Iter.Requires) {
+		name := e.siteName(st, fr, "iterates-requires["+rq.name+"]", pos, ins)
+		st.check("iterates", name, rq.term, pos)
+	}
+}
+
+func (e *Engine) iterPassedOn(st *State, fr *Frame, callee *ssa.Function, cct *Contract, args []Val, pos token.Pos, ins ssa.Instruction) {
+	ct, pv, ok := e.iteratedParam(fr)
+	if !ok {
+		return
+	}
+	pi := -1
+	for i, p := range callee.Params {
+		if p.Name() == cct.Iter.Param {
+			pi = i
+		}
+	}
+	if pi < 0 || pi >= len(args) || args[pi].S != pv.S || args[pi].C != nil {
+		return
+	}
+	sig, isSig := pv.T.Underlying().(*types.Signature)
+	if !isSig {
+		return
+	}
+	// arbitrary callback arguments
+	var formals []Val
+	for i := 0; i < sig.Params().Len(); i++ {
+		v := st.freshVal("iterarg", sig.Params().At(i).Type())
+		if ti := typeInv(v.S, sig.Params().At(i).Type()); ti != "" {
+			st.assume(ti)
+		}
+		formals = append(formals, v)
+	}
+	cenv := &Env{eng: e, st: st, pkg: e.pkgOf(callee), vars: map[string]Val{}, where: "iterates-requires of callee " + funcDisplayName(callee)}
+	e.bindParams(cenv, callee, args)
+	for i, f := range cct.Iter.Formals {
+		if i < len(formals) {
+			cenv.vars[f] = formals[i]
+		}
+	}
+	var pre []string
+	for _, rq := range cenv.expand(cct.Iter.Requires) {
+		pre = append(pre, rq.term)
+	}
+	env := &Env{eng: e, st: st, pkg: e.pkgOf(fr.fn), vars: map[string]Val{}, where: "iterates-requires of " + funcDisplayName(fr.fn), oldSnap: st.unitOld, hasOld: true}
+	e.localsEnv(st, fr, env)
+	for i, f := range ct.Iter.Formals {
+		if i < len(formals) {
+			env.vars[f] = formals[i]
+		}
+	}
+	for _, rq := range env.expand(ct.Iter.Requires) {
+		name := e.siteName(st, fr, "iterates-requires["+rq.name+"]@"+funcDisplayName(callee), pos, ins)
+		st.check("iterates", name, implies(and(pre...), rq.term), pos)
+	}
 }
